@@ -5,6 +5,7 @@ import (
 	"bytes"
 	"encoding/binary"
 	"fmt"
+	"math"
 	"strconv"
 
 	"github.com/Tnze/go-mc/level"
@@ -182,7 +183,9 @@ func earlierField(c *vm.Ctx, r *vm.Rand, dst *level.BitStorage, n int, h *hist) 
 		}
 	}
 	longs := refPack(vals, b2)
-	field := refwire.EncVarInt(int32(len(longs)))
+	// the count is a VarInt of the protocol: now and then in a longer than minimal form (continuation bit on the last
+	// byte, zero bytes after it), which every protocol reader accepts
+	field, padded := encCount(r, len(longs))
 	for _, v := range longs {
 		var t [8]byte
 		binary.BigEndian.PutUint64(t[:], v)
@@ -192,6 +195,7 @@ func earlierField(c *vm.Ctx, r *vm.Rand, dst *level.BitStorage, n int, h *hist) 
 		m := h.wit().(map[string]any)
 		m["earlier_field_bits"] = b2
 		m["earlier_field_longs"] = len(longs)
+		m["earlier_field_count_bytes"] = vm.Hex(field[:len(field)-8*len(longs)])
 		return m
 	}
 	var rn int64
@@ -223,6 +227,9 @@ func earlierField(c *vm.Ctx, r *vm.Rand, dst *level.BitStorage, n int, h *hist) 
 	}
 	if ok {
 		c.Cover("wire.reference-packed-field-read")
+		if padded {
+			c.Cover("wire.count-in-a-longer-varint-form")
+		}
 	}
 	return ok
 }
@@ -368,6 +375,19 @@ func runHistory(c *vm.Ctx, r *vm.Rand, b, n, steps int, withInit bool) {
 		expectPanic(c, st, h, "Swap(value=2^b)", func() { st.Swap(0, maxV+1) })
 		expectPanic(c, st, h, "Get(index=n)", func() { st.Get(n) })
 		expectPanic(c, st, h, "Get(index=-1)", func() { st.Get(-1) })
+		if where == "after-refused-calls" {
+			// the far ends of int, and a value whose low b bits are all zero (what a masked write would store is a 0)
+			high := math.MaxInt &^ maxV
+			expectPanic(c, st, h, "Swap(value=-1)", func() { st.Swap(n-1, -1) })
+			expectPanic(c, st, h, "Set(value=minint)", func() { st.Set(0, math.MinInt) })
+			if high != 0 { // 31 bits where int has 32: there is no such value
+				expectPanic(c, st, h, "Set(value=high-bits-only)", func() { st.Set(n/2, high) })
+				expectPanic(c, st, h, "Swap(value=high-bits-only)", func() { st.Swap(n-1, high) })
+			}
+			expectPanic(c, st, h, "Get(index=maxint)", func() { st.Get(math.MaxInt) })
+			expectPanic(c, st, h, "Set(index=minint)", func() { st.Set(math.MinInt, maxV) })
+			expectPanic(c, st, h, "Swap(index=maxint)", func() { st.Swap(math.MaxInt, maxV) })
+		}
 		c.Guard("ops", h.wit, func() { fullCompare(c, st, m, h, where) })
 	}
 	// derived: a storage that did not come from the first constructor call (rebuilt from Raw(), or filled from the wire and
@@ -493,14 +513,18 @@ func runHistory(c *vm.Ctx, r *vm.Rand, b, n, steps int, withInit bool) {
 		}
 		h.ops = append(h.ops, "(receiver: has read and fixed another field before)")
 	}
-	in := append(append([]byte{}, want...), 0xde, 0xad)
-	rd := bytes.NewReader(in)
+	// the source is whatever io.Reader the caller has: with or without ReadByte, handing out one byte or a few at a time,
+	// returning (0, nil) now and then, or delivering the last bytes together with io.EOF (then nothing follows the field)
+	rd, left, trailer, rkind := makeSource(r, want)
+	if rkind != "bytes.Reader" {
+		h.ops = append(h.ops, "(the field is read from: "+rkind+")")
+	}
 	var rn int64
 	if c.Guard("wire/read", h.wit, func() { rn, err = dst.ReadFrom(rd) }) {
 		return
 	}
-	if err != nil || rn != int64(len(want)) || rd.Len() != 2 {
-		c.Violation("wire/read-count", fmt.Sprintf("ReadFrom: n=%d err=%v remaining=%d, field is %d bytes", rn, err, rd.Len(), len(want)), h.wit())
+	if err != nil || rn != int64(len(want)) || left() != trailer {
+		c.Violation("wire/read-count", fmt.Sprintf("ReadFrom (source: %s): n=%d err=%v remaining=%d, field is %d bytes followed by %d", rkind, rn, err, left(), len(want), trailer), h.wit())
 		return
 	}
 	if c.Guard("wire/fix", h.wit, func() { err = dst.Fix(b) }) {
@@ -517,6 +541,10 @@ func runHistory(c *vm.Ctx, r *vm.Rand, b, n, steps int, withInit bool) {
 	}
 	if past&2 == 2 {
 		c.Cover("wire.receiver-read-twice")
+	}
+	c.Cover("wire.reader." + rkind)
+	if !fixAgainAndSecondHop(c, dst, raw, model, h) {
+		return
 	}
 	derived(dst, "filled from the wire and fixed", "storage-from-wire")
 	// the sender is a separate array: it has not followed the receiver
@@ -658,6 +686,15 @@ func run(c *vm.Ctx) {
 			}
 			exhaustive(c, b, n)
 		}
+	}
+	if c.Shard == 1%c.NShards {
+		largeLengths(c, r, maxBits)
+	}
+	if c.Shard == 2%c.NShards {
+		nestedCalls(c, c.Rand("nested"))
+	}
+	if c.Shard == 3%c.NShards {
+		together(c, c.Rand("together"))
 	}
 	c.Sample("history", map[string]any{"bits": 5, "length": 4096, "ops": "Set/Swap/Get x " + fmt.Sprint(steps) + " against []int model, raw longs compared with the reference packing"})
 }
